@@ -322,6 +322,30 @@ pub fn run(cfg: &Cfg) -> Stats {
             let dup = (s.len() <= lb as usize && s.iter().all(|b| gen::BYTES40.contains(b))) || in_chars27_enum(s, lc);
             eval(s, &mut st, if dup { Distinct::Skip } else { Distinct::Enumerated }, "bytes20");
         });
+        // every non-ground state entered, a whitespace control executed there, then a run of 1..=40 printable bytes (word-
+        // at-a-time fast paths must still consult the state), the sequence finished, more text
+        if shard == 0 || (n > 1 && shard == 1) {
+            let intros: [&[u8]; 12] = [b"\x1b", b"\x1b[", b"\x1b[1;38;2;", b"\x1b[?", b"\x1b[1 ", b"\x1b(", b"\x1b]0;", b"\x1bP", b"\x1bP1;2", b"\x1bP1$q", b"\x1b_", b"\x1bX"];
+            let closers: [&[u8]; 4] = [b"m", b"\x07", b"\x1b\\", b"\x18"];
+            for (ii, intro) in intros.iter().enumerate() {
+                if n > 1 && ii % 2 != shard as usize % 2 {
+                    continue;
+                }
+                for ws in [&b"\n"[..], b"\t", b"\r\n", b"\x0c"] {
+                    for run in [1usize, 7, 8, 9, 15, 16, 17, 31, 32, 33, 40] {
+                        for closer in closers {
+                            let mut d = b"head".to_vec();
+                            d.extend_from_slice(intro);
+                            d.extend_from_slice(ws);
+                            d.extend((0..run).map(|k| b"255;128;0warning: disk almost full 0123456789"[k % 42]));
+                            d.extend_from_slice(closer);
+                            d.extend_from_slice(b"tail \xc3\xa9\x1b[0m.");
+                            eval(&d, &mut st, Distinct::Enumerated, "whitespace-then-run-inside-sequence");
+                        }
+                    }
+                }
+            }
+        }
         let per = nstreams / n + 1;
         for i in 0..per {
             let id = shard + i * n;
@@ -352,6 +376,7 @@ pub fn run(cfg: &Cfg) -> Stats {
     st.exhaustive_parts.push(format!("all strings of <= {lc} characters over CHARS27"));
     st.exhaustive_parts.push(format!("all strings of <= {lb} bytes over BYTES40"));
     st.exhaustive_parts.push(format!("all strings of <= {lb20} bytes over BYTES20"));
+    st.exhaustive_parts.push("12 sequence introducers x 4 whitespace controls x printable runs of 1..40 bytes x 4 ways of ending".into());
     st.sample(24, || {
         let d = b"\x1b[3\n2mX";
         let mut o = J::obj();
